@@ -1,6 +1,7 @@
 #!/bin/bash
 # Runs the thorough tier of the given properties one after the other (used with `vp run`).
 cd "$(dirname "$0")/.."
+[ -n "$VP_RUN_REPO" ] && export VERIF_REPO="$VP_RUN_REPO"
 ./setup.sh >/dev/null 2>&1
 for p in "$@"; do
   s=$(date +%s)
